@@ -321,6 +321,13 @@ def repr_enum_unit_beside_payload_in_bulk(subject):
     return False
 
 @predicate
+def schema_method_receiver_or_async(subject):
+    """a schema tree (uniform node) containing a trait method whose receiver is not &self or that is async"""
+    def go(x):
+        return (x["k"] == "method" and x["n"] != 0) or any(go(c) for c in x["ts"])
+    return subject.get("s") is not None and go(subject["s"])
+
+@predicate
 def contains_result(subject):
     return any_node(subject["t"], lambda x: x["k"] == "res")
 
